@@ -166,6 +166,8 @@ def roundtrip_jigg(st, lang, batch, scratch):
         if ws != [f'w{i}' for i in range(len(ws))]:
             st.count('nontrivial')
         if sents is not None:
+            if sents[si]['problems']:
+                _bad(st, 'jigg_xml', lang, t, ws, 'integrity', f'sentence is not self-contained: {sents[si]["problems"]}')
             for cd in sents[si]['ccgs']:
                 if cd['problems']:
                     _bad(st, 'jigg_xml', lang, t, ws, 'integrity', f'sentence is not self-contained: {cd["problems"]}')
